@@ -220,6 +220,7 @@ structure FinPost (s : State) (tid : Nat) (t0 : Task) (e : Event) (r : Resp) (s'
   same : ∃ ts dd os cl, s' = { s with tasks := ts, dedup := dd, ops := os, cleanup := cl, events := e :: s.events }
   tk : ∀ k, k ≠ tid → alookup k s'.tasks = alookup k s.tasks
   tt : ∃ t', alookup tid s'.tasks = some t' ∧ t'.response = some r ∧ t'.ops = t0.ops ∧ t'.worker = none
+  opk : keys s'.ops = keys s.ops
 
 theorem finalize_spec {exo} {s : State} {tid : Nat} {t0 : Task} {l : Nat} {e : Event}
     (hI : InvX (fun k => k = tid) exo s)
@@ -246,7 +247,7 @@ theorem finalize_spec {exo} {s : State} {tid : Nat} {t0 : Task} {l : Nat} {e : E
       exact hk ((hI.core.l3 k' tid t' t0 l' h1 h0 h2 hl).trans hid.symm)
   obtain ⟨os, cl, he, hsim, hsinv⟩ := finishOps_frame (exo := exo) (ts := (finSt0 (emit s e) { t0 with learner := none } r).tasks)
     (no := s.nextOp) (finSt0 (emit s e) { t0 with learner := none } r) t0.ops hoinv
-  refine ⟨_, congrArg Except.ok he, ⟨hcore, hoinv.sim hsim, hsinv hI.sinv, hlinv⟩, ⟨_, _, _, _, rfl⟩, ?_, ?_⟩
+  refine ⟨_, congrArg Except.ok he, ⟨hcore, hoinv.sim hsim, hsinv hI.sinv, hlinv⟩, ⟨_, _, _, _, rfl⟩, ?_, ?_, hsim.1⟩
   · intro k hk; simp only [finSt0, emit]; grind
   · refine ⟨bumpGen { t0 with learner := none, response := some r }, ?_, rfl, rfl, hw⟩
     simp only [finSt0, emit]; grind
@@ -273,7 +274,7 @@ theorem finSt_parts {exo} {s : State} {tid : Nat} {t0 : Task} (e : Event)
     hI.oinv.setTask (t := bumpGen { t0 with learner := none, response := some r }) (t0 := t0) h0' rfl
   obtain ⟨os, cl, he, hsim, hsinv⟩ := finishOps_frame (exo := exo) (ts := (finSt0 (emit s e) { t0 with learner := none } r).tasks)
     (no := s.nextOp) (finSt0 (emit s e) { t0 with learner := none } r) t0.ops hoinv
-  refine ⟨_, congrArg Except.ok he, hcore, hoinv.sim hsim, hsinv hI.sinv, ⟨⟨_, _, _, _, rfl⟩, ?_, ?_⟩, rfl⟩
+  refine ⟨_, congrArg Except.ok he, hcore, hoinv.sim hsim, hsinv hI.sinv, ⟨⟨_, _, _, _, rfl⟩, ?_, ?_, hsim.1⟩, rfl⟩
   · intro k hk; simp only [finSt0, emit]; grind
   · refine ⟨bumpGen { t0 with learner := none, response := some r }, ?_, rfl, rfl, hw⟩
     simp only [finSt0, emit]; grind
@@ -332,6 +333,7 @@ structure BgPost (Y s' : State) : Prop where
   wex : ∀ q w, (wfind s'.workers q w).isSome = (wfind Y.workers q w).isSome
   tk : ∀ k, k < Y.nextTask → alookup k s'.tasks = alookup k Y.tasks
   sts : s'.streams = Y.streams
+  opk : ∀ k, k < Y.nextOp → (alookup k s'.ops).isSome = (alookup k Y.ops).isSome
 
 theorem bgSt_inv {exo} {Y : State} {t : Task} {bq : ScqId} {prio : Int}
     (hc : Core (fun _ => False) Y.tasks Y.workers Y.dedup Y.nextTask Y.nextLearner)
@@ -405,7 +407,7 @@ theorem bgSt_fr (Y : State) (t : Task) (bq : ScqId) (prio : Int) : Fr Y (bgSt Y 
 theorem abandon_post (Y : State) :
     BgPost Y (emit { Y with nextLearner := Y.nextLearner + 1 } (.learnerAbandoned Y.nextLearner)) := by
   refine ⟨⟨⟨rfl, Nat.le_refl _, Nat.le_succ _, Nat.le_refl _, fun k hk => hk, Ext.refl _ _⟩, ?_⟩,
-    RW.refl Y, fun _ _ => rfl, fun _ _ => rfl, rfl⟩
+    RW.refl Y, fun _ _ => rfl, fun _ _ => rfl, rfl, fun _ _ => rfl⟩
   exact Ext.cons (Ext.refl _ _) _ trivial
 
 theorem bgPart_spec {exo} {h : Hints} {Y : State} {t : Task} {bgIdx : Nat}
@@ -436,10 +438,14 @@ theorem bgPart_spec {exo} {h : Hints} {Y : State} {t : Task} {bgIdx : Nat}
           intro s' ⟨hI', hp⟩
           refine ⟨hI'.mono (fun k hk => hk.2 hk.1) (fun _ h => h), ?_⟩
           obtain ⟨ws, ts, asg, he⟩ := hp.same
-          refine ⟨(bgSt_fr Y t _ _).trans (hp.fr ht rfl), ?_, hp.wex, ?_, by rw [he]; rfl⟩
+          refine ⟨(bgSt_fr Y t _ _).trans (hp.fr ht rfl), ?_, hp.wex, ?_, by rw [he]; rfl, ?_⟩
           · exact RW.trans (RW.refl Y) hp.rw
           · intro k hk
             rw [hp.tk k (by omega)]
+            simp only [bgSt]
+            rw [alookup_aset, if_neg (by omega)]
+          · intro k hk
+            rw [he]
             simp only [bgSt]
             rw [alookup_aset, if_neg (by omega)]
       · okerr
@@ -454,6 +460,7 @@ structure ContPost (s : State) (tid : Nat) (t0 : Task) (s' : State) : Prop where
   tt : ∃ t', alookup tid s'.tasks = some t' ∧ t'.ops = t0.ops ∧
         ∀ q w, t'.worker = some (q, w) → ∃ wk, wfind s.workers q w = some wk ∧ wk.parked = true
   sts : s'.streams = s.streams
+  opk : ∀ k, k < s.nextOp → (alookup k s'.ops).isSome = (alookup k s.ops).isSome
 
 /-- task `tid` is completed in `s` -/
 def TDone (s : State) (tid : Nat) : Prop := ∀ t', alookup tid s.tasks = some t' → t'.response.isSome = true
@@ -464,9 +471,10 @@ theorem FinPost.cont {s Y : State} {tid : Nat} {t0 : Task} {e : Event} {r : Resp
   obtain ⟨ts, dd, os, cl, he⟩ := h.same
   obtain ⟨t', h1, h2, h3, h4⟩ := h.tt
   have htk := h.tk
+  have hopk := h.opk
   subst he
   refine ⟨⟨⟨⟨rfl, Nat.le_refl _, Nat.le_refl _, Nat.le_refl _, ?_, Ext.refl _ _⟩, ?_⟩, RW.refl s,
-    fun _ _ => rfl, fun k hk _ => htk k hk, ⟨t', h1, h3, ?_⟩, rfl⟩, ?_⟩
+    fun _ _ => rfl, fun k hk _ => htk k hk, ⟨t', h1, h3, ?_⟩, rfl, ?_⟩, ?_⟩
   · intro k hk
     by_cases hkt : k = tid
     · subst hkt; have := hk.2 t0 h0; simp [hr] at this
@@ -476,13 +484,20 @@ theorem FinPost.cont {s Y : State} {tid : Nat} {t0 : Task} {e : Event} {r : Resp
       rw [this]; exact hk.2
   · exact Ext.cons (Ext.refl _ _) _ hq
   · intro q w hqw; rw [h4] at hqw; cases hqw
+  · intro k _
+    have a := alookup_isSome_iff k os
+    have b := alookup_isSome_iff k s.ops
+    simp only at hopk ⊢
+    rw [hopk] at a
+    exact Bool.eq_iff_iff.mpr (a.trans b.symm)
   · intro t'' h1'; rw [h1] at h1'; cases h1'; simp [h2]
 
 theorem ContPost.trans_bg {s Y s' : State} {tid : Nat} {t0 : Task} (h1 : ContPost s tid t0 Y)
-    (h2 : BgPost Y s') (hnt : Y.nextTask = s.nextTask) (hlt : tid < s.nextTask) : ContPost s tid t0 s' := by
+    (h2 : BgPost Y s') (hnt : Y.nextTask = s.nextTask) (hno : Y.nextOp = s.nextOp) (hlt : tid < s.nextTask) :
+    ContPost s tid t0 s' := by
   obtain ⟨t', a, b, c⟩ := h1.tt
   refine ⟨h1.fr.trans h2.fr, h1.rw.trans h2.rw, fun q w => (h2.wex q w).trans (h1.wex q w), ?_, ?_,
-    h2.sts.trans h1.sts⟩
+    h2.sts.trans h1.sts, fun k hk => (h2.opk k (by omega)).trans (h1.opk k hk)⟩
   · intro k hk hlt'
     rw [h2.tk k (by omega), h1.tk k hk hlt']
   · exact ⟨t', by rw [h2.tk tid (by omega)]; exact a, b, c⟩
@@ -532,6 +547,7 @@ theorem completeOk_spec {exo} {h : Hints} {s : State} {tid : Nat} {t0 : Task} {l
     have hev : Y.events = .learnerSucceeded l (some s.nextLearner) :: s.events := by rw [he]
     have hnl : Y.nextLearner = s.nextLearner := by rw [he]
     have hnt : Y.nextTask = s.nextTask := by rw [he]
+    have hno : Y.nextOp = s.nextOp := by rw [he]
     have htasks' : Y.tasks = aset tid (bumpGen { t0 with learner := none, response := some r }) s.tasks := by
       rw [htasks]; exact congrArg (fun k => aset k _ s.tasks) hid
     have hheld := held_fin (t1 := bumpGen { t0 with learner := none, response := some r }) hI.core h0 hl rfl
@@ -560,7 +576,7 @@ theorem completeOk_spec {exo} {h : Hints} {s : State} {tid : Nat} {t0 : Task} {l
     refine wp_mono (bgPart_spec (h := h) (t := bumpGen { t0 with learner := none, response := some r })
       (bgIdx := bgIdx) hcY hoY hsY hlog hab) ?_
     intro s' ⟨hI', hbp⟩
-    exact ⟨hI', hcont.1.trans_bg hbp hnt hlt, hcont.2.trans_bg hbp (by omega)⟩
+    exact ⟨hI', hcont.1.trans_bg hbp hnt hno hlt, hcont.2.trans_bg hbp (by omega)⟩
 
 theorem Fr.of_fields {s s' : State} (hcfg : s'.cfg = s.cfg) (hnt : s.nextTask ≤ s'.nextTask)
     (hnl : s.nextLearner ≤ s'.nextLearner) (hno : s.nextOp ≤ s'.nextOp) (hasg : s'.assigned = s.assigned)
@@ -684,7 +700,7 @@ theorem completeRetry_spec {exo} {h : Hints} {s : State} {tid : Nat} {t0 : Task}
   refine ⟨bumpGen_inv hI3' ht3, ?_, by rw [hs3]; rfl, by rw [hs3]; rfl⟩
   · have hfr : Fr s (s3.setTask (bumpGen t3)) :=
       ((retrySt_fr l r h0 hid hr).trans (hp.fr ht2 hr)).trans (Fr.setTask (t := bumpGen t3) ht3' rfl)
-    refine ⟨hfr, ?_, ?_, ?_, ?_, by rw [hs3]; rfl⟩
+    refine ⟨hfr, ?_, ?_, ?_, ?_, by rw [hs3]; rfl, fun k _ => by rw [hs3]; rfl⟩
     · exact RW.trans (RW.trans (RW.refl s) hp.rw) (RW.refl s3)
     · exact hp.wex
     · intro k hk _
